@@ -195,10 +195,13 @@ func (st *StateTransition) preCheck() error {
 		// Make sure this transaction's nonce is correct.
 		stNonce := st.state.GetNonce(st.msg.From())
 		msgNonce := st.msg.Nonce()
-		// if stNonce < msgNonce {
-		// 	return fmt.Errorf("%w: address %v, tx: %d state: %d", ethcore.ErrNonceTooHigh,
-		// 		st.msg.From().Hex(), msgNonce, stNonce)
-		// }
+		// A nonce ahead of the account's is not executable (the mempool check
+		// still admits it): the account only moves one step per executed
+		// message, so executing it would leave it valid and executable again.
+		if stNonce < msgNonce {
+			return fmt.Errorf("%w: address %v, tx: %d state: %d", ethcore.ErrNonceTooHigh,
+				st.msg.From().Hex(), msgNonce, stNonce)
+		}
 		if stNonce > msgNonce {
 			return fmt.Errorf("%w: address %v, tx: %d state: %d", ethcore.ErrNonceTooLow,
 				st.msg.From().Hex(), msgNonce, stNonce)
